@@ -135,6 +135,48 @@ func delimCheck(rel string) string {
 	return delimExpr(rel, ret.Results[0], fd.Type.Params.List[0].Names[0].Name)
 }
 
+// unmarshalChecked tells whether a format's ValidateSchema acts on the error of
+// json.Unmarshal(schemaContent, &runtime): `true` when the error is assigned and the next statement
+// is `if err != nil { return ... }`, `false` when it is assigned to the blank identifier.
+func unmarshalChecked(rel string) string {
+	_, f := parseFile(rel)
+	vs := findMethod(f, "ValidateSchema")
+	if vs == nil || vs.Body == nil {
+		die("%s: ValidateSchema not found", rel)
+	}
+	for i, st := range vs.Body.List {
+		as, ok := st.(*ast.AssignStmt)
+		if !ok || len(as.Rhs) != 1 || len(as.Lhs) != 1 {
+			continue
+		}
+		call, ok := as.Rhs[0].(*ast.CallExpr)
+		if !ok || !isSel(call.Fun, "json", "Unmarshal") {
+			continue
+		}
+		if isIdent(as.Lhs[0], "_") {
+			return "false"
+		}
+		name := exprString(as.Lhs[0])
+		if name == "" || i+1 >= len(vs.Body.List) {
+			die("%s: ValidateSchema: json.Unmarshal result shape not recognised", rel)
+		}
+		ifs, ok := vs.Body.List[i+1].(*ast.IfStmt)
+		if !ok || ifs.Init != nil {
+			die("%s: ValidateSchema: json.Unmarshal error is not tested by the next statement", rel)
+		}
+		cond, ok := ifs.Cond.(*ast.BinaryExpr)
+		if !ok || cond.Op != token.NEQ || exprString(cond.X) != name || !isIdent(cond.Y, "nil") || len(ifs.Body.List) == 0 {
+			die("%s: ValidateSchema: json.Unmarshal error test shape not recognised", rel)
+		}
+		if _, ok := ifs.Body.List[len(ifs.Body.List)-1].(*ast.ReturnStmt); !ok {
+			die("%s: ValidateSchema: json.Unmarshal error test does not return", rel)
+		}
+		return "true"
+	}
+	die("%s: ValidateSchema: no json.Unmarshal statement found", rel)
+	return ""
+}
+
 // schemaConst loads the JSON text of a compiled-in JSON-schema constant.
 func schemaConst(rel, name string) map[string]interface{} {
 	_, f := parseFile(rel)
@@ -198,6 +240,11 @@ func genSafety() string {
 	sb.WriteString("From Coq Require Import NArith ZArith Bool.\nFrom OV Require Import Base.Utf8.\n")
 	fmt.Fprintf(&sb, "Definition csv_delim_check (delim : N) : bool := %s.\n", delimCheck(ff+"csv/format.go"))
 	fmt.Fprintf(&sb, "Definition csv2_delim_check (delim : N) : bool := %s.\n", delimCheck(ff+"flatfile/csv/format.go"))
+	for _, x := range []struct{ name, rel string }{
+		{"csv", ff + "csv/format.go"}, {"csv2", ff + "flatfile/csv/format.go"}, {"edi", ff + "edi/format.go"},
+		{"fixed", ff + "fixedlength/format.go"}, {"fixed2", ff + "flatfile/fixedlength/format.go"}} {
+		fmt.Fprintf(&sb, "Definition %s_unmarshal_checked : bool := %s.\n", x.name, unmarshalChecked(x.rel))
+	}
 	csv := schemaConst(vd+"csvFileDeclaration.go", "JSONSchemaCSVFileDeclaration")
 	csv2 := schemaConst(vd+"csv2FileDeclaration.go", "JSONSchemaCSV2FileDeclaration")
 	fl := schemaConst(vd+"fixedlengthFileDeclaration.go", "JSONSchemaFixedLengthFileDeclaration")
